@@ -10,6 +10,9 @@
    ContainsStr and the proxy's connection wrapper (fake conn with the case's RemoteAddr, every
    kind of first bytes: v1/v2 TCP4/TCP6, UNKNOWN, LOCAL, none); plus random prefixes of every
    length, non-IP peers, and mutated list entries.
+3a. Sequences of connections go through ONE wrapper instance: look-alike peers (textual
+   prefix of a trusted address: 192.0.2.1 / 192.0.2.10 / 192.0.2.100), then the trusted
+   upstream, then the look-alikes again; every wrap is judged by the same history-free rule.
 3b. TLC enumerates configured lists of up to three entries (valid IPv4 / CIDRs, blank and
    white-space entries, garbage, a mapped address; 585 lists) with the verdict; the harness
    puts each into a proxy configuration (proxy.New with ProxyProtocol on, Config.Validate)
@@ -101,7 +104,7 @@ def run(ctx):
         path = ctx.path("rest%d.ndjson" % tries)
         vlib.write_ndjson(path, recs)
     ctx.traces_validated += judged
-    if st["configured_lists_accepted"] in (0, st["configured_lists"]) or not st["wrap_address_changed"] or not st["wrap_read_errors"] or not st["contains_true"] \
+    if not st["wraps_in_sequences"] or st["configured_lists_accepted"] in (0, st["configured_lists"]) or not st["wrap_address_changed"] or not st["wrap_read_errors"] or not st["contains_true"] \
             or st["parse_ok"] in (0, st["parse"]):
         raise vlib.ToolError("outcome classes not all exercised: %s" % st)
     cov = {
@@ -113,6 +116,7 @@ def run(ctx):
                 "through Contains (TCPAddr / textual / bare forms), ContainsStr and the wrapper",
         "boundary_vectors": len(vecs),
         "random_cases": st["random_cases"],
+        "wraps_in_sequences_on_one_instance": st["wraps_in_sequences"],
         "configured_lists": st["configured_lists"],
         "configured_lists_accepted": st["configured_lists_accepted"],
         "parse_events": st["parse"],
